@@ -182,6 +182,10 @@ class BGP(protocol.Protocol):
 
         :return: True or False
         """
+        if self.disconnected:
+            # we closed the connection while handling an earlier message of
+            # this chunk, what follows it is ignored like a later chunk would be
+            return False
         buf = self._receive_buffer
 
         if len(buf) < bgp_cons.HDR_LEN:
